@@ -234,6 +234,7 @@ pub fn safe_apply<S: System>(cfg: &Cfg, s: &mut S, op: S::Op, out: &mut StepOut)
 
 pub fn build<S: System>(cfg: &Cfg, h: &[S::Op]) -> S {
     harness::reset_thread_state();
+    harness::set_alt_wakers(cfg.flag("altw"));
     let mut s = S::new(cfg);
     let mut out = StepOut::default();
     for &op in h {
@@ -248,6 +249,7 @@ pub fn build<S: System>(cfg: &Cfg, h: &[S::Op]) -> S {
 /// violations raised by each step.
 pub fn replay_log<S: System>(cfg: &Cfg, h: &[S::Op]) -> Vec<String> {
     harness::reset_thread_state();
+    harness::set_alt_wakers(cfg.flag("altw"));
     let mut s = S::new(cfg);
     let mut log = vec![];
     for &op in h {
@@ -482,6 +484,7 @@ pub fn explore<S: System>(cfg: &Cfg, opts: &Opts) -> RunResult {
 /// an operation of the history is not enabled.
 pub fn replay_named<S: System>(cfg: &Cfg, names: &[String]) -> Result<Vec<String>, String> {
     harness::reset_thread_state();
+    harness::set_alt_wakers(cfg.flag("altw"));
     let mut s = S::new(cfg);
     let mut log = vec![];
     for (i, n) in names.iter().enumerate() {
